@@ -46,7 +46,21 @@ CompileTags(ev) ==
     ELSE IF ~reachable /\ ev.got # "fail" THEN {"key-outside-default-locale-is-reachable"}
     ELSE {}
 
+\* the code generator (real load_locales run in-process): the `note`s of the `#[deprecated]` items it emits are the texts of the
+\* warnings the parser returned for the same project (LOADTRACE: the parser's trace of the same cases), each exactly once
+LoadRec == ndJsonDeserialize(IOEnv.LOADTRACE)
+LoadOf(case) == LET I == { i \in DOMAIN LoadRec : LoadRec[i].ev \in {"Load", "Crash"} /\ LoadRec[i].case = case } IN LoadRec[CHOOSE i \in I : TRUE]
+SameBag(a, b) == Len(a) = Len(b) /\ \A t \in Range(a) \cup Range(b) :
+                     Cardinality({ i \in DOMAIN a : a[i] = t }) = Cardinality({ j \in DOMAIN b : b[j] = t })
+CodegenTags(ev) ==
+    LET ld == LoadOf(ev.case) IN
+    IF ev.outcome \notin {"Ok", "Err"} THEN {"codegen-outcome:" \o ev.outcome}
+    ELSE IF ld.ev # "Load" \/ ld.load.outcome # "Ok" THEN (IF ev.outcome = "Err" THEN {} ELSE {"generator-accepts-what-the-parser-rejects"})
+    ELSE IF ev.outcome # "Ok" THEN {"generator-rejects-what-the-parser-accepts"}
+    ELSE IF SameBag(ev.notes, ld.load.warnTexts) THEN {} ELSE {"emitted-warnings-differ"}
+
 Tags(ev) == IF ev.ev = "Load" THEN CaseTags(ev)
+            ELSE IF ev.ev = "Codegen" THEN CodegenTags(ev)
             ELSE IF ev.ev = "Compile" THEN CompileTags(ev)
             ELSE IF ev.ev = "Crash" THEN {"crash:" \o ev.outcome}
             ELSE {}
